@@ -585,3 +585,20 @@ package raft
 //@   requires ms != nil && ms.entryDB != nil && ms.wb != nil && contig(entries, ite(len(entries) > 0, entries[0].Index, 0))
 //@   ensures result == nil ==> ghost(werrs, ms.entryDB) == old(ghost(werrs, ms.entryDB))
 //@   modifies *
+
+//@ property C02
+// ---- installing a snapshot: only forward, never over committed entries ----
+//@ func (r *raft) restoreNode(nodes []uint64, grpsConf []*pb.Group, isLearner bool) bool
+//@   trusted rebuilds the progress maps from the snapshot's membership (maps of pointers)
+//@   ensures r.raftLog == old(r.raftLog) && r.raftLog.committed == old(r.raftLog.committed) && r.raftLog.unstable.offset == old(r.raftLog.unstable.offset) && r.Term == old(r.Term) && r.Vote == old(r.Vote) && r.id == old(r.id)
+//@   modifies *
+//@ func (r *raft) restore(s pb.Snapshot) bool
+//@   requires rOK(r) && sOK(r.raftLog.storage) && s.Metadata.Index + 1 < 4611686018427387904 && r.raftLog.logger == r.raftLog.unstable.logger
+//@   callassert restore arg1.Metadata.Index > r.raftLog.committed
+//@   ensures s.Metadata.Index <= old(r.raftLog.committed) ==> !result && r.raftLog.committed == old(r.raftLog.committed)
+//@   ensures r.raftLog.committed >= old(r.raftLog.committed)
+//@   ensures result ==> r.raftLog.committed == s.Metadata.Index && r.raftLog.unstable.offset == s.Metadata.Index + 1
+//@   ensures r.Term == old(r.Term) && r.Vote == old(r.Vote) && r.id == old(r.id)
+//@   modifies *
+//@ loop 1
+//@   invariant r.raftLog == old(r.raftLog) && r.raftLog.committed == old(r.raftLog.committed) && r.Term == old(r.Term) && r.Vote == old(r.Vote) && r.id == old(r.id) && rOK(r)
